@@ -61,6 +61,7 @@ def main():
     liverange_lib.install()      # harness-side wrapping of live_range.extract_*, before the workers are forked
     inplace_lib.install()        # ... of extract_npu_subgraphs and _get_ifm_to_fuse (design.d/InPlace.md)
     inplace_lib.install_profile()
+    ip_stub_stats = inplace_lib.stage(ck, [], prefix="inplace_stub_", compiled=False)     # function level first
     outs = pipe_common.run_corpus(ck, n, profiles=profiles, want={"out_model": True, "extra": inplace_lib.extra_with_liverange},
                                   corpus_first=False, sweep=True)
     if ck.replay_arg is None:
@@ -155,9 +156,10 @@ def main():
     for o, ans in list(zip(owners, answers))[:3]:
         ck.sample({"network": o["desc"], "opts": o["opts"], "verdict": ans})
     lr_stats = liverange_lib.stage(ck, outs, known=ip_known)
-    ip_stats = inplace_lib.stage(ck, outs)
+    ip_stats = inplace_lib.stage(ck, outs, stub=False)
     ck.finish({
         **lr_stats,
+        **ip_stub_stats,
         **ip_stats,
         "programs": programs,
         "disagreements_checked": rejected,
